@@ -760,6 +760,28 @@ def js_raisable(prog: Program) -> RuleResult:
     return r
 
 
+def js_stateless(prog: Program) -> RuleResult:
+    """Whether a tag resolves is a question about the interpreter *now*: a module that cannot be imported (any more - unloaded, blocked with
+    sys.modules[name] = None, its directory gone) is an UnknownModuleError.  A memo in front of the import (lru_cache does not remember
+    failures, but it remembers every success) answers for the module as it was: the tag resolves to a class of a module that is gone."""
+    r = RuleResult("JS-STATELESS", "resolving a tag consults the import system every time", floor=1)
+    mod = prog.module("adapters.json_serializer") if hasattr(prog, "module") else None
+    m = next(mm for mm in prog.modules.values() if mm.name.endswith("adapters.json_serializer"))
+    memo_names = {}
+    for st in m.tree.body:
+        if isinstance(st, ast.Assign) and len(st.targets) == 1 and isinstance(st.targets[0], ast.Name):
+            if any(isinstance(y, (ast.Name, ast.Attribute)) and (getattr(y, "id", None) in ("lru_cache", "cache") or getattr(y, "attr", None) in ("lru_cache", "cache")) for y in ast.walk(st.value)):
+                memo_names[st.targets[0].id] = st
+    res = prog.lookup(prog.cls("json_serializer.SubclassJSONSerializer").qual, "from_json")
+    used = [c for c in calls_in(res.node) if isinstance(c.func, ast.Name) and c.func.id in memo_names]
+    deco = [f_ for f_ in prog.functions.values() if f_.module is m and f_.is_lru_cache and any(call_name(c) == f_.name for c in calls_in(res.node))]
+    bad = used or deco
+    r.check(not bad, "SubclassJSONSerializer.from_json#no-memo-before-the-import", site(res, used[0]) if used else site(res), src(used[0])[:60] if used else (deco[0].short if deco else ""), "every resolution imports",
+            f"`{src(memo_names[used[0].func.id])[:70] if used else (deco[0].short if deco else '')}` memoises a step of the resolution: a module that was importable once still resolves after it stopped "
+            "being importable - the tag yields an instance of an unloaded class (or ClassNotFoundError) instead of UnknownModuleError")
+    return r
+
+
 def js_entry(prog: Program) -> RuleResult:
     """from_json is not the only way into deserialisation: the engine the library creates reads JSON columns through a deserialiser of its own
     making, helpers wrap it.  A caller inside the library that catches one of the documented errors and goes on - returns the raw document,
@@ -796,4 +818,4 @@ def js_entry(prog: Program) -> RuleResult:
 
 
 def run(prog: Program, tier: str) -> List[RuleResult]:
-    return [guard(lambda: js_entry(prog)), guard(lambda: js_escape(prog)), guard(lambda: js_registry(prog)), guard(lambda: js_relabel(prog)), guard(lambda: js_raisable(prog))]
+    return [guard(lambda: js_entry(prog)), guard(lambda: js_stateless(prog)), guard(lambda: js_escape(prog)), guard(lambda: js_registry(prog)), guard(lambda: js_relabel(prog)), guard(lambda: js_raisable(prog))]
